@@ -7,10 +7,25 @@ for every Go type of the family of SMD/Spec/GoFamily.lean and every value of it.
 import SMD.Proofs.ReflectJSON
 namespace SMD.C18
 
-/-- reflection never fails on well-typed data (the wrappers panic on nothing the family contains) -/
-theorem reflect_total (t : GoType) (v : GoVal) (ht : GoVal.hasType t v = true) :
+-- STATEMENT-FALSE: `GoVal.hasType .uint (.int i)` only asks for `0 ≤ i`; the datum `.int (2^64)` is not a
+-- 64-bit `uint`, and `reflectV .uint (.int (2^64)) = none` (the model reads a `uint` as `int64(uint)`, defined
+-- on [0, 2^64) only).
+-- theorem reflect_total (t : GoType) (v : GoVal) (ht : GoVal.hasType t v = true) :
+--     (reflectV t v).isSome = true
+example : ¬ ∀ (t : GoType) (v : GoVal), GoVal.hasType t v = true → (reflectV t v).isSome = true := by
+  intro h
+  exact absurd (h .uint (.int (2 ^ 64)) (by decide)) (by decide)
+
+/-- reflection never fails on well-typed data (the wrappers panic on nothing the family contains), every
+`uint` being within the range of Go's 64-bit `uint` (`GoVal.hasTypeB (2^64)`: `GoVal.hasType` and all
+uints below 2^64) -/
+theorem reflect_total_of_uintRange (t : GoType) (v : GoVal) (ht : GoVal.hasTypeB (2 ^ 64) t v = true) :
     (reflectV t v).isSome = true :=
-  reflectV_total v t ht
+  reflectV_total (2 ^ 64) (Int.le_refl _) v t ht
+
+/-- the bounded typing is the typing plus the bound -/
+theorem hasType_of_hasTypeB (ub : Int) (t : GoType) (v : GoVal) (ht : GoVal.hasTypeB ub t v = true) :
+    GoVal.hasType t v = true := hasTypeB_hasType ub v t ht
 
 /-- on the family, encoding/json succeeds as well -/
 theorem json_total_of_family (t : GoType) (v : GoVal) (ht : GoVal.hasType t v = true)
@@ -18,18 +33,35 @@ theorem json_total_of_family (t : GoType) (v : GoVal) (ht : GoVal.hasType t v = 
     (jsonV t v).isSome = true :=
   jsonV_total v t ht hf hv
 
+-- STATEMENT-FALSE: `struct{U uint}{1<<63}`: the reflection wrappers read the field with
+-- `int64(r.Value.Uint())` = -9223372036854775808, encoding/json writes 9223372036854775808
+-- (t = `.uint`, v = `.int (2^63)`: r = `.int (-(2^63))`, j = `.int (2^63)`).
+-- theorem reflect_equals_json (t : GoType) (v : GoVal) (r j : Value)
+--     (ht : GoVal.hasType t v = true) (hf : t.inFamily = true) (hv : v.inFamily = true)
+--     (hr : reflectV t v = some r) (hj : jsonV t v = some j) :
+--     Value.equals r j = true
+example : ¬ ∀ (t : GoType) (v : GoVal) (r j : Value), GoVal.hasType t v = true → t.inFamily = true →
+    v.inFamily = true → reflectV t v = some r → jsonV t v = some j → Value.equals r j = true := by
+  intro h
+  have := h .uint (.int (2 ^ 63)) _ _ (by decide) (by decide) (by decide) reflect_uint_wraps.1 reflect_uint_wraps.2.1
+  rw [reflect_uint_wraps.2.2] at this
+  cases this
+
 /-- the reflected value equals the JSON round trip (numbers compared numerically: JSON does not keep
-the int/float distinction of integral values nor the sign of a zero) -/
-theorem reflect_equals_json (t : GoType) (v : GoVal) (r j : Value)
-    (ht : GoVal.hasType t v = true) (hf : t.inFamily = true) (hv : v.inFamily = true)
+the int/float distinction of integral values nor the sign of a zero), every `uint` being below 2^63
+(`GoVal.hasTypeB (2^63)`: `GoVal.hasType` and all uints below 2^63 — from 2^63 on the reflected value is the
+two's-complement reinterpretation) -/
+theorem reflect_equals_json_of_uintBelowInt64 (t : GoType) (v : GoVal) (r j : Value)
+    (ht : GoVal.hasTypeB (2 ^ 63) t v = true) (hf : t.inFamily = true) (hv : v.inFamily = true)
     (hr : reflectV t v = some r) (hj : jsonV t v = some j) :
     Value.equals r j = true :=
-  reflectV_equals v t r j ht hf hv hr hj
+  reflectV_equals (2 ^ 63) (Int.le_refl _) v t r j ht hf hv hr hj
 
 /-- non-vacuity: a concrete type and value of the family (inline structs three levels deep, an empty
 omitempty field, a nil embedded pointer, a float32, a []byte, an interface holding a typed slice, a
 `json:"-"` field) satisfy the hypotheses, and both readings produce a value -/
-example : GoVal.hasType C18Ex.exT C18Ex.exV = true ∧ C18Ex.exT.inFamily = true ∧ C18Ex.exV.inFamily = true ∧
+example : GoVal.hasTypeB (2 ^ 63) C18Ex.exT C18Ex.exV = true ∧ GoVal.hasTypeB (2 ^ 64) C18Ex.exT C18Ex.exV = true ∧
+    GoVal.hasType C18Ex.exT C18Ex.exV = true ∧ C18Ex.exT.inFamily = true ∧ C18Ex.exV.inFamily = true ∧
     (reflectV C18Ex.exT C18Ex.exV).isSome = true ∧ (jsonV C18Ex.exT C18Ex.exV).isSome = true := by
   decide
 
